@@ -33,7 +33,7 @@ def BOUNDS(tier):
 
 
 def REQUIRED_COVER(tier):
-    return {'ids:local>peer', 'ids:local<peer', 'ids:equal', 'pair:same-key', 'flip:sig', 'flip:msg', 'sign:resplit', 'mnemonic:deviation', 'wallet-key'}
+    return {'ids:local>peer', 'ids:local<peer', 'ids:equal', 'pair:same-key', 'flip:sig', 'flip:msg', 'sign:resplit', 'mnemonic:deviation', 'wallet-key', 'derive-history'}
 
 
 # ------------------------------------------------------------------ reference derivations
@@ -327,6 +327,50 @@ def case_mnemonic(rec, stream, deviations, derive=False):
     rec.notes['max_draws'] = max(rec.notes.get('max_draws', 0), src.draws)
 
 
+def case_derive_history(rec):
+    """key derivation is a function of the word LIST: phrases that are close to each other (same words in another order, the
+    same letters with other word boundaries - art+work+network / artwork+net+work -, a shared prefix, one word repeated) are
+    derived one after another in one process, in every order of each pair, and each result is compared with the reference
+    chain (a result remembered from an earlier call under too coarse a key shows up here)"""
+    import itertools
+    from pytoniq_core.crypto import keys as K
+    pad = ['abandon'] * 21
+    fam = {
+        'split-a': ['art', 'work', 'network'] + pad,
+        'split-b': ['artwork', 'net', 'work'] + pad,
+        'order-a': ['zoo', 'zone', 'zero'] + pad,
+        'order-b': ['zero', 'zone', 'zoo'] + pad,
+        'prefix-a': pad + ['able', 'about', 'above'],
+        'prefix-b': pad + ['able', 'about', 'absent'],
+        'short': ['art', 'work'],
+        'short-joined': ['artwork'],
+    }
+    want = {k: ref_wallet_key(v) for k, v in fam.items()}
+    rec.covered('derive-history')
+    for a, b in itertools.permutations(fam, 2):
+        if a.split('-')[0] != b.split('-')[0]:
+            continue
+        rec.case('derive-history')
+        rec.state(('derive', a, b))
+        rec.nontriv(('derive', a, b))
+        for name in (a, b, a):
+            rec.trans()
+            try:
+                pub, sec = K.mnemonic_to_wallet_key(list(fam[name]))
+                pub2, _ = K.mnemonic_to_private_key(list(fam[name]))
+            except Exception as e:
+                rec.violation('key:raises', f'deriving {fam[name][:3]}.. raised {exc_name(e)}: {e}', 'case_derive_history', {})
+                continue
+            rec.trace()
+            if pub != want[name][0] or sec[:32] != want[name][1]:
+                rec.violation('key:history', f'after deriving the phrases {a}, {b} in this order, the key of {name} ({" ".join(fam[name][:3])} ...) differs from the reference chain '
+                              f'(equals the key of another phrase: {[k for k, v in want.items() if v[0] == pub]})', 'case_derive_history', {})
+                rec.outcome('WRONG-KEY')
+                return
+    rec.outcome('derive-ok')
+    rec.sample({'phrases': ['art work network abandon..', 'artwork net work abandon..'], 'order': 'a, b, a', 'checked': 'each key equals the reference derivation'})
+
+
 BOUNDARY = [0x0000, 0x07ff, 0xffff, 0x0800]
 
 
@@ -351,6 +395,7 @@ def shard_mnemonic(rec, stream, k, part, parts):
 def shards(tier, seed):
     out = [{'fn': 'shard_channels', 'args': {'ia': i}} for i in range(6)]
     out.append({'fn': 'shard_sign', 'args': {}})
+    out.append({'fn': 'case_derive_history', 'args': {}, 'prio': 5})
     k = 1 if tier == 'quick' else 2
     parts = 12 if tier == 'quick' else 60
     for stream in ('hash', 'count'):
